@@ -42,12 +42,12 @@ type c07Case struct {
 	// ColdFirst: the concurrent phase runs first, in a process that has compiled nothing yet, and the
 	// sequential baseline afterwards (state that is lazily initialised on first use and then only read
 	// is raced on only while it is cold: a baseline computed first would warm it up and hide the race)
-	ColdFirst bool     `json:"cold_first,omitempty"`
+	ColdFirst bool `json:"cold_first,omitempty"`
 	// GCRounds > 0: after the baseline, GCRounds times: compile every rejected specification, run a garbage
 	// collection, then re-compile accepted ones (state keyed by an object's address must not outlive a
 	// compilation that ended in an error: the collector hands the address to a later compilation)
 	GCRounds int      `json:"gc_rounds,omitempty"`
-	Classes   []string `json:"classes,omitempty"`
+	Classes  []string `json:"classes,omitempty"`
 }
 
 // corpus files that compile on their own (decided once per process, sequentially)
